@@ -307,4 +307,11 @@ def jobs(tier, seed):
             if chks:
                 out.append(Job("C10_gd_%s_%d" % (sname, i), s_, chks, native=False))
     out.append(Job("C10_BM_usp", '#include "C10_bm.inc"\n', [dict(name="BM unverified_safe_pointer_because after create/destroy histories", fn=check_bm_usp, kw=dict(orders=(0, 3) if tier == "quick" else None), unwind=200)], native=False))
+    # copy_and_verify_string on a sandbox-resident char*: only bytes of the range that was checked are touched, for every schedule
+    # (kernels and oracle of C09; built here directly because C09's job list itself includes C10's range kernels)
+    from specs import C09
+    src9 = '#include "verif_sandbox.hpp"\nusing S = B32;\n#include "C09_kernels.inc"\n'
+    for k9, kind9 in (("k_cavs_vol_string", "string_s"), ("k_cavs_vol_unique", "string_u")):
+        out.append(Job("C10_adv_" + k9, src9, [dict(name="adversarial " + k9, fn=C09.check_variant, kw=dict(k=k9, kind=kind9, bound=6), unwind=40)],
+                       flags=["-D_GLIBCXX_EXTERN_TEMPLATE=0"], native=False))
     return out
